@@ -112,6 +112,7 @@ def run_crosshair(ob, extra_pre, scale):
     msgs, stats = analyse('_', timeout)
     out['wall_s'] = round(time.time() - t0, 2)
     out['paths'] = int(stats.get('num_paths', 0))
+    out['main_paths'] = out['paths']
     status, message, cex = 'inconclusive', 'no message from CrossHair', None
     for m in msgs:
         st = m.state
